@@ -318,9 +318,23 @@ Section ServerProofs.
     live (s_ctx c') /\
     hreqs (fst (drain c)) = requests_of evs ++ hreqs (fst (drain c')) /\
     snd (drain c) = snd (drain c') /\
-    ~ In SOof evs.
+    ~ In SOof evs /\
+    (* the assertion can only fire after a request line was rejected *)
+    (s_dirty c' = true -> d_abandoned (snd (drain c')) = true \/ s_dirty c = true) /\
+    (In SAssert evs -> s_dirty c = true).
   Proof.
-    intros Hc. unfold srv_onMessage, drain.
+    intros Hc. unfold srv_onMessage.
+    destruct (s_aborted c) eqn:Eab.
+    { cbn [requests_of flat_map app].
+      split; [exact Hc|]. split; [reflexivity|]. split; [reflexivity|]. split; [intros []|].
+      split; [intros H; right; exact H|intros []]. }
+    destruct (s_dirty c && is_reqline_state (s_ctx c) && reaches_setMethod (s_buf c)) eqn:Eas.
+    { cbn [requests_of flat_map app s_ctx s_buf s_dirty]. unfold drain. cbn [s_ctx s_buf].
+      apply andb_true_iff in Eas as [Eas _]. apply andb_true_iff in Eas as [Ed _].
+      split; [exact Hc|]. split; [reflexivity|]. split; [reflexivity|].
+      split; [intros [H|[]]; discriminate H|].
+      split; [intros _; right; exact Ed|intros _; exact Ed]. }
+    unfold drain.
     pose proof (parseRequest_run (S (length (s_buf c))) (s_ctx c) (s_buf c)
                   (S (length (s_buf c))) (length (s_buf c)) Hc ltac:(lia) ltac:(lia) ltac:(lia)) as HR.
     pose proof (parseRequest_no_fuel (S (length (s_buf c))) (s_ctx c) (s_buf c) Hc ltac:(lia)) as Hnf.
@@ -330,19 +344,22 @@ Section ServerProofs.
     - destruct (gotAll ctx') eqn:Eg.
       + (* a request completed: handed over, context reset *)
         specialize (Hlt eq_refl).
-        cbn [app s_ctx s_buf]. split; [apply live_ctx0|].
+        cbn [app s_ctx s_buf s_dirty]. split; [apply live_ctx0|].
         assert (Hb : forall c2 : sconn, s_buf (if rs_close (callback (h_req ctx') (wants_close (h_req ctx')))
                                           then do_shutdown c2 else c2) = s_buf c2).
         { intros c2. destruct (rs_close _); [unfold do_shutdown; destruct (s_connected c2)|]; reflexivity. }
         rewrite Hb. cbn [s_buf].
         rewrite (run_fuel hctx hevent hstep hstep_shrinks (length (s_buf c)) (S (length b')) ctx0 b') by lia.
         destruct (hrun (S (length b')) ctx0 b') as [e d]. cbn [fst snd requests_of flat_map app hreqs].
-        repeat split; try reflexivity.
+        split; [|split; [reflexivity|split; [|split]]].
         * unfold do_send. cbn [s_connected]. destruct (s_connected c); reflexivity.
         * intros Hin. cbn in Hin. destruct Hin as [Hin|[Hin|[]]]; [discriminate Hin|].
           unfold do_send in Hin. destruct (s_connected _); discriminate Hin.
+        * intros H. discriminate H.
+        * intros Hin. cbn in Hin. destruct Hin as [Hin|[Hin|[]]]; [discriminate Hin|].
+          unfold do_send in Hin. destruct (s_connected _); discriminate Hin.
       + (* need more bytes: nothing to hand over, the state is settled *)
-        cbn [app s_ctx s_buf fst snd].
+        cbn [app s_ctx s_buf fst snd s_dirty].
         assert (Hl' : live ctx').
         { pose proof (run_live (S (length (s_buf c))) (s_ctx c) (s_buf c) Hc) as HL.
           rewrite HR in HL. cbn [pr_to_run] in HL. rewrite Eg in HL. exact HL. }
@@ -351,19 +368,23 @@ Section ServerProofs.
         rewrite HR in HS. cbn [pr_to_run] in HS. rewrite Eg in HS. cbn [snd] in HS.
         destruct HS as [_ [HS|HS]]; [discriminate HS|]. cbn [d_st d_buf] in HS.
         rewrite run_S, HS. cbn [fst snd hreqs flat_map requests_of app d_st d_buf].
-        repeat split; try reflexivity. intros [].
+        split; [reflexivity|]. split; [reflexivity|]. split; [intros []|].
+        split; [intros H; right; exact H|intros []].
     - (* bad request line: 400, shutdown; nothing consumed, the same line is still there *)
       destruct (parseRequest_false _ _ _ _ _ Hc Ep) as [-> ->].
       assert (Eg : gotAll (s_ctx c) = false).
       { destruct Hc as [H|H]; unfold gotAll; rewrite H; reflexivity. }
       rewrite Eg. cbn [app].
-      assert (Hsame : forall c2, s_ctx (do_shutdown c2) = s_ctx c2 /\ s_buf (do_shutdown c2) = s_buf c2).
-      { intros c2. unfold do_shutdown. destruct (s_connected c2); split; reflexivity. }
-      destruct (Hsame (mkS (s_ctx c) (s_buf c) (s_connected c) (s_shutdowns c))) as [E1 E2].
-      rewrite E1, E2. cbn [s_ctx s_buf]. split; [exact Hc|].
-      rewrite HR. cbn [pr_to_run fst snd hreqs flat_map requests_of app].
-      repeat split; try reflexivity.
-      + unfold do_send. destruct (s_connected c); reflexivity.
+      set (c1 := mkS (s_ctx c) (s_buf c) (s_connected c) (s_shutdowns c) (s_dirty c || sets_method (s_buf c)) false).
+      assert (Hsame : s_ctx (do_shutdown c1) = s_ctx c /\ s_buf (do_shutdown c1) = s_buf c).
+      { unfold do_shutdown, c1. destruct (s_connected c); split; reflexivity. }
+      destruct Hsame as [E1 E2]. rewrite E1, E2. split; [exact Hc|].
+      rewrite HR. cbn [pr_to_run fst snd hreqs flat_map requests_of app d_abandoned].
+      split; [|split; [reflexivity|split; [|split]]].
+      + unfold do_send, c1. cbn [s_connected]. destruct (s_connected c); reflexivity.
+      + intros Hin. cbn in Hin. destruct Hin as [Hin|[]]. unfold do_send in Hin.
+        destruct (s_connected _); discriminate Hin.
+      + intros _. left. reflexivity.
       + intros Hin. cbn in Hin. destruct Hin as [Hin|[]]. unfold do_send in Hin.
         destruct (s_connected _); discriminate Hin.
   Qed.
@@ -371,7 +392,7 @@ Section ServerProofs.
   (* appending a chunk to the server's buffer = feeding it to the ideal decoder that sits in
      the drained state *)
   Lemma drain_append c chunk : live (s_ctx c) ->
-    let c1 := mkS (s_ctx c) (s_buf c ++ chunk) (s_connected c) (s_shutdowns c) in
+    let c1 := mkS (s_ctx c) (s_buf c ++ chunk) (s_connected c) (s_shutdowns c) (s_dirty c) (s_aborted c) in
     let '(e1, d1) := drain c in
     let '(e2, d2) := feed hstep d1 chunk in
     hreqs (fst (drain c1)) = hreqs e1 ++ hreqs e2 /\ snd (drain c1) = d2.
@@ -394,31 +415,54 @@ Section ServerProofs.
       cbn [fst snd]. rewrite hreqs_app. repeat split; reflexivity.
   Qed.
 
+  Lemma feed_keeps_abandoned d ch : d_abandoned d = true -> d_abandoned (snd (feed hstep d ch)) = true.
+  Proof. intros H. unfold feed. rewrite H. reflexivity. Qed.
+
+  Lemma feed_all_keeps_abandoned : forall cs d, d_abandoned d = true ->
+    d_abandoned (snd (feed_all hstep d cs)) = true.
+  Proof.
+    induction cs as [|ch cs IH]; intros d H; cbn [feed_all]; [exact H|].
+    pose proof (feed_keeps_abandoned d ch H) as H1.
+    destruct (feed hstep d ch) as [e1 d1]. cbn [snd] in H1. specialize (IH d1 H1).
+    destruct (feed_all hstep d1 cs) as [e2 d2]. exact IH.
+  Qed.
+
   (* all deliveries *)
   Lemma deliver_all_drain : forall chunks c d, live (s_ctx c) -> snd (drain c) = d ->
+    (s_dirty c = true -> d_abandoned d = true) ->
     let '(ess, c') := deliver_allS c chunks in
     let '(ei, di) := feed_all hstep d chunks in
     live (s_ctx c') /\
     hreqs (fst (drain c)) ++ hreqs ei = requests_of (concat ess) ++ hreqs (fst (drain c')) /\
-    snd (drain c') = di /\ ~ In SOof (concat ess).
+    snd (drain c') = di /\ ~ In SOof (concat ess) /\
+    (In SAssert (concat ess) -> d_abandoned di = true).
   Proof.
-    induction chunks as [|ch cs IH]; intros c d Hc Hd; cbn [srv_deliver_all feed_all].
-    - cbn [concat requests_of flat_map app]. rewrite app_nil_r. repeat split; try assumption. intros [].
+    induction chunks as [|ch cs IH]; intros c d Hc Hd Hdirty; cbn [srv_deliver_all feed_all].
+    - cbn [concat requests_of flat_map app]. rewrite app_nil_r.
+      split; [exact Hc|]. split; [reflexivity|]. split; [exact Hd|]. split; intros [].
     - unfold srv_deliver.
-      set (c1 := mkS (s_ctx c) (s_buf c ++ ch) (s_connected c) (s_shutdowns c)).
+      set (c1 := mkS (s_ctx c) (s_buf c ++ ch) (s_connected c) (s_shutdowns c) (s_dirty c) (s_aborted c)).
       pose proof (drain_append c ch Hc) as HA. cbv zeta in HA. fold c1 in HA.
+      pose proof (feed_keeps_abandoned d ch) as HK.
       destruct (drain c) as [e0 d0] eqn:ED. cbn [snd fst] in *. subst d0.
-      destruct (feed hstep d ch) as [e2 d2]. destruct HA as [HA1 HA2].
+      destruct (feed hstep d ch) as [e2 d2]. destruct HA as [HA1 HA2]. cbn [snd] in HK.
       pose proof (onMessage_drain c1 Hc) as HM.
-      destruct (onMsg c1) as [evs c2]. destruct HM as (Hc2 & HM1 & HM2 & HM3).
-      specialize (IH c2 d2 Hc2 ltac:(rewrite <- HM2; exact HA2)).
+      destruct (onMsg c1) as [evs c2]. destruct HM as (Hc2 & HM1 & HM2 & HM3 & HM4 & HM5).
+      assert (Hd1 : s_dirty c1 = true -> d_abandoned d2 = true).
+      { intros H. apply HK. apply Hdirty. exact H. }
+      assert (Hd2 : s_dirty c2 = true -> d_abandoned d2 = true).
+      { intros H. destruct (HM4 H) as [H'|H']; [rewrite <- HM2, HA2 in H'; exact H'|exact (Hd1 H')]. }
+      specialize (IH c2 d2 Hc2 ltac:(rewrite <- HM2; exact HA2) Hd2).
       destruct (deliver_allS c2 cs) as [ess c3].
-      destruct (feed_all hstep d2 cs) as [e3 d3].
-      destruct IH as (Hc3 & IH1 & IH2 & IH3).
-      split; [exact Hc3|]. split; [|split; [exact IH2|]].
+      pose proof (feed_all_keeps_abandoned cs d2) as HKA.
+      destruct (feed_all hstep d2 cs) as [e3 d3]. cbn [snd] in HKA.
+      destruct IH as (Hc3 & IH1 & IH2 & IH3 & IH4).
+      split; [exact Hc3|]. split; [|split; [exact IH2|split]].
       + cbn [concat]. rewrite hreqs_app, requests_of_app.
         rewrite app_assoc, <- HA1, HM1, <- !app_assoc, IH1. reflexivity.
       + cbn [concat]. intros Hin. apply in_app_or in Hin as [Hin|Hin]; [exact (HM3 Hin)|exact (IH3 Hin)].
+      + cbn [concat]. intros Hin. apply in_app_or in Hin as [Hin|Hin]; [|exact (IH4 Hin)].
+        apply HKA. apply Hd1. exact (HM5 Hin).
   Qed.
 End ServerProofs.
 
@@ -432,14 +476,15 @@ Theorem server_requests_prefix :
     let '(ess, c) := srv_deliver_all callback sconn0 chunks in
     let '(ei, di) := http_feed_all http_init chunks in
     hreqs ei = requests_of (concat ess) ++ hreqs (fst (drain c)) /\
-    snd (drain c) = di /\ ~ In SOof (concat ess).
+    snd (drain c) = di /\ ~ In SOof (concat ess) /\
+    (In SAssert (concat ess) -> d_abandoned di = true).
 Proof.
   intros callback chunks.
-  pose proof (deliver_all_drain callback chunks sconn0 http_init live_ctx0 eq_refl) as H.
+  pose proof (deliver_all_drain callback chunks sconn0 http_init live_ctx0 eq_refl ltac:(intros H; discriminate H)) as H.
   rewrite (http_feed_all_eq chunks http_init live_ctx0).
   destruct (srv_deliver_all callback sconn0 chunks) as [ess c].
   destruct (feed_all hstep http_init chunks) as [ei di].
-  destruct H as (_ & H1 & H2 & H3). cbn [drain sconn0 s_buf s_ctx length] in H1.
+  destruct H as (_ & H1 & H2 & H3 & H4). cbn [drain sconn0 s_buf s_ctx length] in H1.
   change (fst (C18_Model.run hstep 1 ctx0 [])) with (@nil hevent) in H1. cbn [hreqs flat_map app] in H1.
   repeat split; assumption.
 Qed.
@@ -458,3 +503,12 @@ Theorem server_pipelining_refuted :
     length (hreqs (fst (http_feed_all http_init c1))) = 2.
 Proof. exists [ex_req ++ ex_req], [ex_req; ex_req]. vm_compute. repeat split. Qed.
 
+
+(* the assertion does fire: a rejected request line with a valid method, then any byte *)
+Definition ex_bad_version : list byte :=
+  [x47; x45; x54; x20; x2f; x20; x48; x54; x54; x50; x2f; x31; x2e; x32; x0d; x0a].   (* "GET / HTTP/1.2\r\n" *)
+
+Theorem server_assert_refuted :
+  exists chunks, In SAssert (concat (fst (srv_deliver_all ex_callback sconn0 chunks))) /\
+                 length chunks = 2.
+Proof. exists [ex_bad_version; [x78]]. vm_compute. split; [right; left; reflexivity|reflexivity]. Qed.
